@@ -300,20 +300,22 @@ def gen_haarseg(rng, k):
     return out
 
 
-def _profile(rng, force_flat=None):
+def _profile(rng, force_flat=None, hardest=False):
     nchr = rng.randint(1, 3)
     chroms = []
     flat = rng.random() < 0.25 if force_flat is None else force_flat
     for c in range(nchr):
         if flat:
-            n = rng.randint(100, 600)
+            n = rng.randint(100, 600) if not hardest else rng.choice([100, 600])
             b, lo, hi = None, 0.0, 0.0
         else:
             nl, nr = rng.randint(100, 400), rng.randint(100, 400)
+            if hardest:   # boundary of the quantifier: shortest sides, smallest step
+                nl, nr = rng.choice([(100, 100), (100, 400), (400, 100)])
             n, b = nl + nr, nl
-            step = rng.choice([-1.0, 0.585, 1.0])
+            step = rng.choice([-1.0, 0.585, 1.0]) if not hardest else 0.585
             lo, hi = (0.0, step) if rng.random() < 0.5 else (step, 0.0)
-        sd = rng.uniform(0.01, 0.1)
+        sd = rng.uniform(0.01, 0.1) if not hardest else 0.1
         pos = rng.randint(0, 100000)
         gap_at = rng.randint(60, n - 60) if (flat and rng.random() < 0.15 and n > 130) else -1
         bins = []
@@ -331,8 +333,8 @@ def _profile(rng, force_flat=None):
 
 def gen_oracle(rng, k):
     out = []
-    for _ in range(k):
-        chroms = _profile(rng)
+    for j in range(k):
+        chroms = _profile(rng, hardest=(j % 10 == 0))
         for method in ("haar", "hmm-germline"):
             kind = "flat" if chroms[0]["b"] is None else "step"
             out.append({"op": "oracle", "tag": f"oracle-{method}-{kind}", "in": {"method": method, "chroms": chroms}})
@@ -341,8 +343,8 @@ def gen_oracle(rng, k):
 
 def gen_cases(rng, tier):
     sizes = {
-        "quick": dict(fl=300, conv=500, peaks=600, fdr=400, unify=1200, segs=400, hs=300, oracle=220),
-        "thorough": dict(fl=3000, conv=4000, peaks=5000, fdr=3000, unify=6000, segs=3000, hs=2500, oracle=2200),
+        "quick": dict(fl=300, conv=500, peaks=600, fdr=400, unify=1200, segs=400, hs=300, oracle=450),
+        "thorough": dict(fl=3000, conv=4000, peaks=5000, fdr=3000, unify=6000, segs=3000, hs=2500, oracle=4000),
         "search": dict(fl=100, conv=300, peaks=300, fdr=200, unify=300, segs=200, hs=300, oracle=300),
     }[tier]
     cases = [{"op": "consts", "tag": "consts", "in": {}}]
@@ -375,6 +377,18 @@ def corpus():
         out.append({"op": "fdr_thres", "tag": "corpus-fdr-bump", "in": {"x": x, "q": 0.0001, "stdev": 0.01}})
     out.append({"op": "unify", "tag": "corpus-unify", "in": {"base": [10], "addon": [8, 9, 10, 11, 12, 13], "w": 2}})
     out.append({"op": "unify", "tag": "corpus-unify", "in": {"base": [], "addon": [3, 1], "w": 1}})
+    # observation Y: a constant weighted signal of 14 bins is split by the real code (rounding noise of the weighted
+    # quotients + threshold 0 for a single noise peak); no clause is claimed there, the level loop must still agree
+    out.append({"op": "haar_seg", "tag": "corpus-Y-flat-weighted", "in": {
+        "I": [0.585] * 14, "q": 0.0001, "exact": False, "flat_unclaimed": True,
+        "w": [0.75, 1.0, 0.5, 0.625, 0.875, 1.0, 0.5, 0.75, 0.625, 1.0, 0.875, 0.5, 0.75, 1.0]}})
+    # boundary of the quantifier for the oracle: 100 bins a side, sd 0.1, smallest claimed step
+    import random
+    r = random.Random(11)
+    for _ in range(3):
+        chroms = _profile(r, force_flat=False, hardest=True)
+        for method in ("haar", "hmm-germline"):
+            out.append({"op": "oracle", "tag": f"corpus-oracle-hardest-{method}", "in": {"method": method, "chroms": chroms}})
     return out
 
 
